@@ -52,11 +52,14 @@ class NeighbourInteraction(ObservableBase):
 
         samples = to_pm1(samples)  # convert to +/- 1 format
         L = samples.shape[-1]  # length of the spin chain
+        # a plain integer: a numpy unsigned scalar (np.uint8(1)) would wrap around
+        # in `-c` and turn `perm_indices` into a byte mask
+        c = int(self.c)
         if self.periodic_bcs:
-            perm_indices = [(i + self.c) % L for i in range(L)]
+            perm_indices = [(i + c) % L for i in range(L)]
             interaction_terms = samples * samples[:, perm_indices]
         else:
-            interaction_terms = samples[:, : -self.c] * samples[:, self.c :]
+            interaction_terms = samples[:, :-c] * samples[:, c:]
 
         # average over spin sites.
         # not using mean bc interaction_terms.shape[-1] < num_spins = L
